@@ -150,9 +150,9 @@ def harnesses(tier):
                 jobs=[dict(keylen=3), dict(keylen=2, keys_vals=[1, 2, 1, 2, 0]), dict(keylen=1, keys_vals=[1, 9, 0]), dict(keylen=1, keys_vals=[1, 2]), dict(keylen=1, user_sid=1)] + [dict(keylen=1, mutate=m) for m in ((3, 9, 14, 17, 20, 23, 26) if q else range(2, 30))],
                 desc='PBFPrimitiveBlockDecoder on a block with one dense node and one tag: arbitrary bytes (including NUL) inside the string-table entries, out-of-range string indexes (tags and the delta-coded user string index of DenseInfo, negative included), unterminated keys_vals, and one arbitrary byte at structural positions: memory-safe decoding and complete traversal of the delivered node (tags)',
                 bounds='1 node, string table of 3 entries, <= 3 symbolic bytes per job'),
-        Harness('xml_changeset_events', 'xml', h_xml_events, setup=setup_xml, reach=('end', 'accepted', 'rejected'), sanitize=True, tests=[dict(_job=0, ev0=1, ev1=6, ev2=5)], jobs=[dict(n=k) for k in ((3, 4, 5, 6) if q else (3, 4, 5, 6, 7))],
+        Harness('xml_changeset_events', 'xml', h_xml_events, setup=setup_xml, reach=('end', 'accepted', 'rejected'), sanitize=True, tests=[dict(_job=0, ev0=1, ev1=6, ev2=5)], jobs=[dict(n=k) for k in (3, 4, 5, 6)],
                 desc='XMLParser element callbacks (start_element, characters, end_element) inside <osm><changeset> for every well-nested sequence of <discussion>, <comment>, <text>, character data, <tag> and end events: memory-safe, std exceptions only, the delivered changeset (discussion comments, tags) is traversed completely in an exact-size copy',
-                bounds='event lists of length <= %d over 6 event kinds; expat (tokenising, well-formedness) is not encoded' % (6 if q else 7)),
+                bounds='event lists of length <= %d over 6 event kinds; expat (tokenising, well-formedness) is not encoded' % 6),
         Harness('xml_hostile_attributes', 'xml', h_xml_hostile, mode='INT', setup=setup_xml, reach=('end', 'accepted', 'rejected'), sanitize=True, wall=900,
                 jobs=[dict(target=t, sym=K) for t in range(len(XML_TARGETS))] + [dict(target=t, sym=K, affix=1) for t in range(len(XML_TARGETS)) if XML_TARGETS[t][2] in XML_AFFIX],
                 desc='XMLParser element callbacks on element scripts in which one attribute value (every attribute of node, nd, member, tag, bounds, osm, changeset, comment), one attribute name or one element name (at top level, in <osm>, <osmChange>, <node>) consists of arbitrary non-NUL bytes, alone or embedded in an otherwise valid value (timestamps, coordinates, numbers near their limits): memory-safe, ends by return or an exception derived from std::exception, every delivered object is traversed completely in an exact-size copy',
